@@ -18,7 +18,13 @@ type c03Aux struct {
 }
 
 func drawPrioLimit(t *rapid.T, k int) (args []string, n int) {
-	switch rapid.IntRange(0, 6).Draw(t, "limit") {
+	switch rapid.IntRange(0, 8).Draw(t, "limit") {
+	case 7:
+		// no limit in effect: the largest values the flag accepts (what a library user's
+		// math.MaxUint amounts to; wave 12, C03-u)
+		return []string{"-max-h2-priority-frames", "18446744073709551615"}, -1
+	case 8:
+		return []string{"-max-h2-priority-frames=9223372036854775808"}, -1
 	case 0:
 		return nil, 10000
 	case 1:
